@@ -89,6 +89,11 @@ namespace GeographicLib {
   }
 
   Math::real EllipticFunction::RG(real x, real y, real z) {
+    // Carlson, eq 1.7, is subject to cancellation unless z lies between x and
+    // y; RG is symmetric so permute the arguments to make this so.
+    if ((x - z) * (y - z) > 0) {
+      if ((y - x) * (z - x) <= 0) swap(x, z); else swap(y, z);
+    }
     return (x == 0 ? RG(y, z) :
             (y == 0 ? RG(z, x) :
              (z == 0 ? RG(x, y) :
